@@ -472,11 +472,198 @@ fn failed_end_case(i: &Input, c: &mut Case, check_verdicts: bool) -> Result<(), 
     })
 }
 
-pub const STAGES: &[Stage] = &[Stage { name: "rejected_calls", f: stage }, Stage { name: "rejected_master_end", f: stage_failed_end }];
+// ---------------------------------------------------------------------------------------------
+// the statement itself as a metamorphic relation, with no knowledge of which calls must fail: arbitrary calls are mixed into a valid
+// sequence; whenever one of them returns a non-I/O error, the same sequence is run again WITHOUT that one call, and from there on
+// everything — the verdict of every later call, what the destination holds after each of them, the result of the final flush —
+// must be identical
+
+fn gen_any_flat(t: &mut Tape, spec: &SpecTable, depth: usize) -> Flat {
+    let e = &spec.elems[t.below(spec.elems.len())];
+    if e.ty != Ty::Master {
+        let mut po = PayOpts { big_left: 0, huge: false, max_small: 8 };
+        return Flat::Leaf(e.id, gen_payload(t, e.ty, &mut po));
+    }
+    match t.below(if depth == 0 { 4 } else { 3 }) {
+        0 => Flat::Start(e.id),
+        1 => Flat::End(e.id),
+        2 => Flat::Full(e.id, vec![]),
+        _ => {
+            let n = t.below(4);
+            Flat::Full(e.id, (0..n).map(|_| gen_any_flat(t, spec, depth + 1)).collect())
+        }
+    }
+}
+
+fn gen_any_call(t: &mut Tape, spec: &SpecTable, open: &[u64]) -> WOp {
+    match t.weighted(&[6, 6, 3, 2, 1]) {
+        0 => gen_failing(t, spec, open).map(|x| x.0).unwrap_or_else(|| WOp::Write(gen_any_flat(t, spec, 0), WOpt::Default)),
+        1 => {
+            let f = gen_any_flat(t, spec, 0);
+            let opt = match t.weighted(&[4, 2, 3]) {
+                0 => WOpt::Default,
+                1 => WOpt::Width(1 + t.below(8) as u8),
+                _ => WOpt::Unknown,
+            };
+            WOp::Write(f, opt)
+        }
+        2 => {
+            // a Full master the open chain allows, children partly allowed: the shape in which something may already have been buffered
+            // (or handed over) when the call turns out to fail
+            let ms: Vec<&Elem> = spec.elems.iter().filter(|m| m.ty == Ty::Master && ref_match(&m.path, open)).collect();
+            if ms.is_empty() {
+                return WOp::Write(gen_any_flat(t, spec, 0), WOpt::Default);
+            }
+            let m = ms[t.below(ms.len())];
+            let mut chain = open.to_vec();
+            chain.push(m.id);
+            let n = 1 + t.below(3);
+            let mut ch = good_children(t, spec, &chain, n);
+            if t.chance(2, 3) {
+                if let Some(b) = bad_child(t, spec, &chain) {
+                    let at = t.below(ch.len() + 1);
+                    ch.insert(at, b);
+                }
+            }
+            let opt = match t.weighted(&[3, 2, 3]) {
+                0 => WOpt::Default,
+                1 => WOpt::Width(1 + t.below(8) as u8),
+                _ => WOpt::Unknown,
+            };
+            WOp::Write(Flat::Full(m.id, ch), opt)
+        }
+        3 => WOp::UnknownDeprecated(gen_any_flat(t, spec, 0)),
+        _ => {
+            let id = if t.chance(1, 2) { gen_unknown_id(t, spec) } else { *t.pick(&[0u64, 1, 0x7F, 0x1FF, 0x8000, 0xEC, 0xBF]) };
+            WOp::Raw(id, t.bytes(3))
+        }
+    }
+}
+
+#[derive(Clone, Debug, PartialEq)]
+struct Trace {
+    verdicts: Vec<Option<WErr>>,
+    dest_len: Vec<usize>,
+    flush: Option<WErr>,
+    bytes: Vec<u8>,
+}
+
+fn run_trace<T: crate::dynspec::Spec>(ops: &[WOp]) -> Trace {
+    let mut w = Wr::<T>::new(RecDest::new());
+    let mut verdicts = Vec::with_capacity(ops.len());
+    let mut dest_len = Vec::with_capacity(ops.len());
+    for op in ops {
+        verdicts.push(w.apply(op).err());
+        dest_len.push(w.dest().len());
+    }
+    let before = w.dest().to_vec();
+    match w.finish() {
+        Ok(b) => Trace { verdicts, dest_len, flush: None, bytes: b },
+        Err(e) => Trace { verdicts, dest_len, flush: Some(e), bytes: before },
+    }
+}
+
+fn stage_any_calls(i: &Input, c: &mut Case) -> Result<(), String> {
+    let mut t = Tape::new(i.tape());
+    let to = TreeOpts { max_nodes: 16, pay: PayOpts { big_left: 0, huge: false, max_small: 16 }, deep: t.chance(1, 2), ..TreeOpts::default() };
+    let d = gen_doc(&mut t, SpecOpts::default(), to, EncOpts { widths: true, unknown: true, full: true, noncanonical: false });
+    note_cleared(c, &d);
+    let v = forest_ops(&d.forest);
+    let mut chains: Vec<Vec<u64>> = Vec::with_capacity(v.len() + 1);
+    let mut open: Vec<u64> = Vec::new();
+    for op in &v {
+        chains.push(open.clone());
+        match op {
+            WOp::Write(Flat::Start(id), _) => open.push(*id),
+            WOp::Write(Flat::End(_), _) => {
+                open.pop();
+            }
+            _ => {}
+        }
+    }
+    chains.push(open.clone());
+    let mut ops: Vec<WOp> = v.clone();
+    let n_extra = 1 + t.below(4);
+    let mut ins: Vec<(usize, WOp)> = Vec::new();
+    for _ in 0..n_extra {
+        let at = t.below(v.len() + 1);
+        ins.push((at, gen_any_call(&mut t, d.spec.table(), &chains[at])));
+    }
+    ins.sort_by_key(|x| std::cmp::Reverse(x.0));
+    for (at, op) in ins {
+        ops.insert(at, op);
+    }
+    c.key(&(d.spec.table().elems.clone(), &format!("{:?}", ops)));
+    c.sample_with(|| format!("spec {} | calls {}", spec_brief(d.spec.table()), render_ops(&ops)));
+    c.label(if d.spec.is_rich() { "spec_macro_derived" } else { "spec_generated" });
+    with_spec!(d.spec, T => {
+        let mut cur = ops.clone();
+        let mut a = run_trace::<T>(&cur);
+        let mut removed = 0;
+        for _round in 0..4 {
+            if let Some(p) = a.verdicts.iter().find_map(|v| if let Some(WErr::Panic(m)) = v { Some(m.clone()) } else { None }) {
+                return Err(format!("a writer call panicked: {}\n  calls: {}", p, render_ops(&cur)));
+            }
+            let Some(f) = a.verdicts.iter().position(|v| matches!(v, Some(e) if !e.is_io())) else { break };
+            // the same calls without the refused one
+            let mut without = cur.clone();
+            let refused = without.remove(f);
+            let b = run_trace::<T>(&without);
+            c.checks += 1;
+            removed += 1;
+            c.label(match a.verdicts[f].as_ref().map(|e| e.kind()) {
+                Some("UnexpectedTag") => "refused_UnexpectedTag",
+                Some("TagSizeError") => "refused_TagSizeError",
+                Some("TagIdError") => "refused_TagIdError",
+                Some("UnexpectedClosingTag") => "refused_UnexpectedClosingTag",
+                _ => "refused_other",
+            });
+            let ctx = |m: String| format!("{}\n  refused call #{}: {} -> {:?}\n  with it:    {}\n  without it: {}", m, f, refused.short(), a.verdicts[f].as_ref().map(|e| e.kind()), render_ops(&cur), render_ops(&without));
+            // before the refused call both runs are the same run
+            if f > 0 && (a.dest_len[f] != a.dest_len[f - 1]) {
+                return Err(ctx(format!("the refused call handed {} byte(s) to the destination", a.dest_len[f] - a.dest_len[f - 1])));
+            }
+            if f == 0 && a.dest_len[0] != 0 {
+                return Err(ctx(format!("the refused call handed {} byte(s) to the destination", a.dest_len[0])));
+            }
+            for k in f..without.len() {
+                if a.verdicts[k + 1] != b.verdicts[k] {
+                    return Err(ctx(format!("call {} ({}) returns {:?} after the refused call but {:?} when that call is never made", k + 1, without[k].short(), a.verdicts[k + 1].as_ref().map(|e| e.kind()), b.verdicts[k].as_ref().map(|e| e.kind()))));
+                }
+                if a.dest_len[k + 1] != b.dest_len[k] {
+                    return Err(ctx(format!("after call {} ({}) the destination holds {} bytes, but {} when the refused call is never made", k + 1, without[k].short(), a.dest_len[k + 1], b.dest_len[k])));
+                }
+            }
+            if a.flush != b.flush {
+                return Err(ctx(format!("the final flush()/into_inner() returns {:?} after the refused call but {:?} without it", a.flush.as_ref().map(|e| e.kind()), b.flush.as_ref().map(|e| e.kind()))));
+            }
+            if a.bytes != b.bytes {
+                let k = a.bytes.iter().zip(b.bytes.iter()).take_while(|(x, y)| x == y).count();
+                return Err(ctx(format!("the final output differs at byte {} ({} vs {} bytes)\n  with:    {}\n  without: {}", k, a.bytes.len(), b.bytes.len(), hex(&a.bytes[..a.bytes.len().min(200)]), hex(&b.bytes[..b.bytes.len().min(200)]))));
+            }
+            cur = without;
+            a = b;
+        }
+        c.nontrivial = removed > 0;
+        c.label_if(removed > 1, "several_refused_calls");
+        c.label_if(removed == 0, "no_call_refused");
+        Ok(())
+    })
+}
+
+pub const STAGES: &[Stage] = &[
+    Stage { name: "rejected_calls", f: stage },
+    Stage { name: "rejected_master_end", f: stage_failed_end },
+    Stage { name: "any_calls_without_the_refused_one", f: stage_any_calls },
+];
 
 pub fn run(rc: &mut RunCtx) {
     rc.run_pt(STAGES[0], rc.pick(480_000, 2_000_000), (96, 640));
     rc.run_pt(STAGES[1], rc.pick(160_000, 800_000), (96, 500));
+    rc.run_pt(STAGES[2], rc.pick(320_000, 1_500_000), (96, 640));
+    for l in ["refused_UnexpectedTag", "refused_TagSizeError", "refused_TagIdError", "refused_UnexpectedClosingTag", "several_refused_calls"] {
+        rc.require_label("any_calls_without_the_refused_one", l, 5_000);
+    }
     rc.require_label("rejected_master_end", "width1_content_127plus", 300_000);
     for l in ["tag_not_allowed_here", "size_not_representable_in_width", "unknown_size_on_non_master", "malformed_raw_id", "unknown_size_on_non_master_deprecated_call", "end_of_not_innermost_master", "full_with_invalid_child", "full_with_stray_end_or_unclosed_start", "full_master_content_not_representable_in_width", "failing_call_inside_open_master"] {
         rc.require_label("rejected_calls", l, 20_000);
